@@ -87,18 +87,24 @@ func fxData(e fxEvent, n, t int) []byte {
 		r := requests.DKGProposalCommitConfirmationRequest{ParticipantId: e.Pid, Commit: []byte(fmt.Sprintf("commit-%d", e.Pid)), CreatedAt: ts}
 		if e.Var == "empty" {
 			r.Commit = nil
+		} else if e.Var == "blank" { // present but of zero length (`""` on the board), not the same thing as missing
+			r.Commit = []byte{}
 		}
 		v = r
 	case dpf.EventDKGDealConfirmationReceived:
 		r := requests.DKGProposalDealConfirmationRequest{ParticipantId: e.Pid, Deal: []byte(fmt.Sprintf("deal-%d", e.Pid)), CreatedAt: ts}
 		if e.Var == "empty" {
 			r.Deal = nil
+		} else if e.Var == "blank" { // present but of zero length (`""` on the board), not the same thing as missing
+			r.Deal = []byte{}
 		}
 		v = r
 	case dpf.EventDKGResponseConfirmationReceived:
 		r := requests.DKGProposalResponseConfirmationRequest{ParticipantId: e.Pid, Response: []byte(fmt.Sprintf("response-%d", e.Pid)), CreatedAt: ts}
 		if e.Var == "empty" {
 			r.Response = nil
+		} else if e.Var == "blank" { // present but of zero length (`""` on the board), not the same thing as missing
+			r.Response = []byte{}
 		}
 		v = r
 	case dpf.EventDKGMasterKeyConfirmationReceived:
@@ -112,6 +118,8 @@ func fxData(e fxEvent, n, t int) []byte {
 			r.MasterKey = []byte("master-key-B")
 		case "empty":
 			r.MasterKey = nil
+		case "blank":
+			r.MasterKey = []byte{}
 		}
 		v = r
 	case dpf.EventDKGCommitConfirmationError, dpf.EventDKGDealConfirmationError, dpf.EventDKGResponseConfirmationError, dpf.EventDKGMasterKeyConfirmationError:
@@ -234,11 +242,11 @@ func fxAlphabet(n, t int) []fxEvent {
 			a = append(a, fxEvent{string(spf.EventDeclineProposal), p, v})
 		}
 		for _, ev := range []fsm.Event{dpf.EventDKGCommitConfirmationReceived, dpf.EventDKGDealConfirmationReceived, dpf.EventDKGResponseConfirmationReceived} {
-			for _, v := range []string{"valid", "late", "zero", "empty"} {
+			for _, v := range []string{"valid", "late", "zero", "empty", "blank"} {
 				a = append(a, fxEvent{string(ev), p, v})
 			}
 		}
-		for _, v := range []string{"valid", "keyB", "keyOnlyB", "late", "lateB", "zero", "empty"} {
+		for _, v := range []string{"valid", "keyB", "keyOnlyB", "late", "lateB", "zero", "empty", "blank"} {
 			a = append(a, fxEvent{string(dpf.EventDKGMasterKeyConfirmationReceived), p, v})
 		}
 		for _, ev := range []fsm.Event{dpf.EventDKGCommitConfirmationError, dpf.EventDKGDealConfirmationError, dpf.EventDKGResponseConfirmationError, dpf.EventDKGMasterKeyConfirmationError} {
